@@ -266,8 +266,41 @@ def edits_v3(ver, t, rng, heavy):
         yield s[:k] + rng.choice("\x00\xff Xx:/") + s[k + 1:]
 
 
-def parser3_ops(rng, nseeds, heavy, kind="D3", nrandom=2000):
+LENGTHS = [1, 2, 15, 16, 17, 31, 32, 33, 42, 43, 44, 63, 64, 65, 100, 120, 121, 127, 128, 129, 255, 256, 257, 1000, 4096, 65536]
+
+
+def unicode_ops(rng, kinds, valid):
+    """inputs around length thresholds in bytes and in runes: multi-byte UTF-8 (2, 3 and 4 byte runes), full-width
+    spellings of valid vectors, invalid UTF-8, NULs -- alone, after a valid vector, and in place of a value"""
+    def wide(t):
+        return "".join(chr(ord(c) + 0xFEE0) if "!" <= c <= "~" else c for c in t)
+    out = []
+    v = valid
+    out += [wide(v), wide(v) * 3, v + wide(v), wide(v[: len(v) // 2]) + v[len(v) // 2:]]
+    for r in ("\u00e9", "\u3042", "\U0001F600", "\x00", "\uFF0F", "\uFF1A"):
+        for k in LENGTHS:
+            if k > 4096 and r != "\u3042":
+                continue
+            out.append(r * k)
+            if k <= 1000:
+                out.append(v + "/" + r * k)
+                out.append(v + r * k)
+                out.append(v.rsplit(":", 1)[0] + ":" + r * k)
+                out.append(r * k + "/" + v)
+    for k in LENGTHS:
+        if k <= 4096:
+            out.append(b"\xff" * k)
+            out.append(b"\xe3\x81" * k)
+            out.append(v.encode() + b"/" + b"\xc3" * k)
     ops = []
+    for t in out:
+        for kind in kinds:
+            ops.append(_op(kind, rng.below(3), t))
+    return ops
+
+
+def parser3_ops(rng, nseeds, heavy, kind="D3", nrandom=2000):
+    ops = unicode_ops(rng, (kind, "N3"), vec.rand_v3(rng, 2, perm=False))
     for L, ver, t in seeds_v3(rng, nseeds):
         for s in edits_v3(ver, t, rng, heavy):
             # offer every string to its own decoder and (thinned) to the others
@@ -358,7 +391,7 @@ def edits_v2(b, t, e, rng, heavy):
 
 
 def parser2_ops(rng, nseeds, heavy, kind="D2", nrandom=2000):
-    ops = []
+    ops = unicode_ops(rng, (kind, "N2"), vec.rand_v2(rng, 2))
     for b, t, e in seeds_v2(rng, nseeds):
         for s in edits_v2(b, t, e, rng, heavy):
             for L in range(3):
@@ -393,6 +426,29 @@ def accepted2_ops(rng, n, kind="D2"):
     for _ in range(n):
         L = rng.below(3)
         ops.append(_op(kind, L, vec.special_vector(rng, 2, L) if rng.chance(1, 10) else vec.rand_v2(rng, L)))
+    return ops
+
+
+def spellings3(rng, n):
+    """classes of spellings of one token set at one decoder: canonical order, two random orders, every optional
+    metric of the level written as X, a random subset of the X's omitted (C09: all must give the same object)"""
+    ops = []
+    for _ in range(n):
+        L = rng.below(3)
+        ver = rng.choice(vec.VERS3)
+        if rng.chance(1, 8):
+            sv = vec.special_vector(rng, 3, L).split("/")
+            ver, given = sv[0][5:], dict(t.split(":") for t in sv[1:])
+        else:
+            given = {}
+            for m in vec.V3:
+                if m[1] == 0 or (m[1] <= L and rng.chance(1, 2)):
+                    given[m[0]] = rng.choice(m[2])
+        canon = ["%s:%s" % (m[0], given[m[0]]) for m in vec.V3 if m[0] in given]
+        allx = ["%s:%s" % (m[0], given.get(m[0], "X")) for m in vec.V3 if m[1] <= L]
+        some = [t for t in allx if not (t.endswith(":X") and rng.chance(1, 2))]
+        for toks in (canon, rng.shuffle(canon), rng.shuffle(canon), allx, rng.shuffle(some)):
+            ops.append(_op("D3", L, vec.v3vec(ver, toks)))
     return ops
 
 
